@@ -14,8 +14,11 @@ destination re-injects every queued item in order and empties the queue.  With `
 written ++ queue` for normal items as the history invariant (induction over events: meta-step),
 this is in-order exactly-once delivery.
 """
-from pyvc.runner import Unit, Property, Syntactic
+from pyvc.runner import Unit, Property, Syntactic, Bounded
 from . import client_units as CU
+
+
+C07_IDS = 'order_exactly_once,drop_only_at_limit,drop_counted,bound,rerouted_not_lost,delivered_at_quiescence,stop_after_drain,no_raise'
 
 
 def build():
@@ -23,6 +26,10 @@ def build():
     'C07', CU.all_units('C07'),
     syntactic=[Syntactic('C07/constants/derived_watermarks', CU.constants_derivation,
                          'client.py derives SEND_QUEUE_LOW_WATERMARK / SEND_QUEUE_HARD_MAX as the harness assumes')],
+    bounded=[Bounded('C07/native/event_sequences_cross_check', 'replay/relay_native.py',
+                     ['--len', '5', '--random', '50', '--only', C07_IDS], ['--len', '6', '--random', '300', '--thorough', '--only', C07_IDS],
+                     "every enabled sequence of <= 5 (quick) / 6 (thorough) events over {arrival, self-metric, connection made / lost / failed, transport paused / resumed, timer round}, each with and without a final orderly stop, plus seeded random sequences up to 14 events, on the real factories and protocols (pickle and line) with a task.Clock reactor: 32 (quick) / 78 (thorough) configurations of MAX_QUEUE_SIZE in {1,2,3}, hard-limit and low-watermark fractions, MAX_DATAPOINTS_PER_MESSAGE in {1,2,500}, flow control, dynamic router, retry budget",
+                     "the history statement (accepted == written ++ queue over whole event sequences, delivery at quiescence, orderly stop) is an induction over events that is a meta-step of the per-operation contracts, not a discharged obligation; this runs it on CPython/Twisted for every short history")],
     trusted_base=['A-ENGINE', 'A-SMT', 'A-TWISTED-DEFER', 'A-LIB(deque/list models)'],
     assumptions=[
       "A-TWISTED-DEFER: Deferred.callback runs the registered callbacks synchronously once, raises AlreadyCalledError when already called; callLater returns a DelayedCall that is active until it fires",
